@@ -274,6 +274,116 @@ def gen_pack(ctx, table, N):
     return cases
 
 
+def masked_expect(table, ty, hexbytes, dyn):
+    """what reading back an item must show: static into a 0xA5-filled object -> communicated bytes; dynamic -> all field bytes, padding '..'"""
+    sz = table[ty]["sizeof"]; b = bytes.fromhex(hexbytes) if hexbytes != "_" else b""
+    rg = [tuple(map(int, x.split(":"))) for x in table[ty]["comm" if not dyn else "all"].split(",")]
+    out = []
+    for i in range(len(b)):
+        inside = any(o <= i % sz < o + n for o, n in rg)
+        out.append("%02x" % b[i] if inside else ("a5" if not dyn else ".."))
+    return "".join(out) or "_"
+
+
+def gen_pks(ctx, table, N):
+    """MPIPack scripts with seek() to earlier positions followed by pack() (overwrite in the middle, at 0, up to the end, beyond the end),
+    seek(end)/seek(0), optional hop to another rank, full read-back; size/tell/eof observed after every op"""
+    rng = ctx.rng("pks")
+    tys = [t for t in table if t not in ALIAS]
+    dyn = [t for t in tys if t not in ("pli", "ip")]
+    def item(ty=None, d=None, n=None):
+        d = (rng.random() < 0.5) if d is None else d
+        ty = ty or rng.choice(dyn if d else tys)
+        n = (rng.choice([0, 1, 2, 4]) if n is None else n) if d else 1
+        return {"d": d, "ty": ty, "n": n, "hex": rbytes(rng, table[ty]["sizeof"] * n).hex() or "_"}
+    def tok(it): return "%s|%s|%s" % ("d" if it["d"] else "s", it["ty"], it["hex"])
+    def size(it): return (4 if it["d"] else 0) + it["n"] * table[it["ty"]]["packsize"]
+    def rtok(it): return "r|%s|%s|%s" % ("d" if it["d"] else "s", it["ty"], masked_expect(table, it["ty"], it["hex"], it["d"]))
+    cases = []
+    for c in range(N):
+        kind = rng.choice(["slot", "slot", "count", "raw"])
+        ops = []
+        if kind == "count":
+            # placeholder count, items, seek(0), real count, seek(end)
+            k = rng.choice([1, 2, 3, 5]); its = [item() for _ in range(k)]
+            cnt = {"d": False, "ty": "int", "n": 1, "hex": k.to_bytes(4, "little").hex()}
+            ops = ["s|int|00000000"] + [tok(i) for i in its] + ["k|0", tok(cnt), "k|end"]
+            slots = [cnt] + its
+        elif kind == "slot":
+            k = rng.choice([1, 2, 3, 4, 5]); slots = [item() for _ in range(k)]
+            ops = [tok(i) for i in slots]
+            for _ in range(rng.choice([1, 1, 2, 3])):
+                j = rng.choice([0, k - 1, rng.randrange(k)])
+                off = sum(size(i) for i in slots[:j])
+                old = slots[j]
+                if j == k - 1 and old["d"] and rng.random() < 0.6:
+                    new = item(old["ty"], True, rng.choice([0, 1, 2, 4, 6]))     # last slot: shorter / equal / beyond the end
+                else:
+                    new = item(old["ty"], old["d"], old["n"])                    # same size: overwrite in place
+                ops += ["k|%d" % off, tok(new)]
+                slots[j] = new
+                if rng.random() < 0.3: ops.append("k|end")
+            ops.append("k|end")
+        else:
+            # arbitrary byte positions (inside, at the end, occasionally beyond): byte-level only, no typed read-back
+            sz = 0; slots = None
+            for _ in range(rng.choice([2, 3, 5])):
+                it = item()
+                if sz and rng.random() < 0.75:
+                    pos = rng.choice([0, sz, max(0, sz - size(it)), rng.randrange(sz + 1), rng.randrange(sz + 1)] + ([sz + rng.choice([1, 3])] if rng.random() < 0.15 else []))
+                    ops.append("k|%d" % pos)
+                else:
+                    pos = sz if not ops else None
+                    if pos is None: ops.append("k|end"); pos = sz
+                ops.append(tok(it)); sz = max(sz, pos + size(it))
+            ops.append(rng.choice(["k|end", "k|0"]))
+        if rng.random() < 0.6: ops.append("x")
+        if slots is not None:
+            ops.append("k|0"); ops += [rtok(i) for i in slots]
+        cases.append("pks %d %s" % (rng.choice([0, 0, 1, 3]), " ".join(ops)))
+    return cases
+
+
+def oracle_pks(case, impl, spec):
+    """MPIPack semantics judged on the impl's own successive observations: pack at cursor c of bytes b: buffer' = buffer with [c, c+|b|) replaced by b,
+    grown (never shrunk) to max(size, c+|b|); cursor' = c+|b|; seek/read/hop leave the buffer alone; reads return what was last written there"""
+    t = case.split(); ops = t[2:]
+    sp = spec.split("/")[1:]
+    parts = impl.split(";")
+    if len(parts) < 2: return "malformed observation"
+    obs = ([] if parts[0] == "-" else parts[0].split("/")[1:]) + ([] if parts[1] == "-" else parts[1].split("/")[1:])
+    if len(obs) != len(ops) or len(sp) != len(ops): return "observation has %d entries for %d ops: %s" % (len(obs), len(ops), impl[:120])
+    buf = b""; pos = 0
+    for i, (op, o) in enumerate(zip(ops, obs)):
+        f = o[1:].split(","); kind = o[0]
+        if len(f) < 3: return "op %d (%s): malformed %s" % (i, op[:30], o[:60])
+        size, tell, eof = int(f[-3]), int(f[-2]), f[-1]
+        if (eof == "e") != (tell == size): return "op %d (%s): eof()=%s but tell=%d size=%d" % (i, op[:30], eof, tell, size)
+        it = op.split("|")
+        if it[0] in ("s", "d"):
+            b = bytes.fromhex(sp[i][1:]) if sp[i][1:] != "_" else b""
+            nb = bytearray(buf) + bytearray(max(0, pos + len(b) - len(buf)))
+            nb[pos:pos + len(b)] = b
+            got = bytes.fromhex(f[0]) if f[0] != "_" else b""
+            if got != bytes(nb):
+                return ("op %d: pack of %d bytes at cursor %d of a %d-byte buffer: buffer must become %s (bytes outside [cursor,cursor+size) unchanged, "
+                        "size max(old,cursor+size)=%d), impl has %d bytes %s" % (i, len(b), pos, len(buf), bytes(nb).hex()[:120], len(nb), len(got), got.hex()[:120]))
+            buf = bytes(nb); pos += len(b)
+        elif it[0] == "k":
+            pos = len(buf) if it[1] == "end" else int(it[1])
+        elif it[0] == "x":
+            got = bytes.fromhex(f[0]) if f[0] != "_" else b""
+            if got != buf: return "op %d: received pack holds %s, sent %s" % (i, got.hex()[:100], buf.hex()[:100])
+            pos = 0
+        elif it[0] == "r":
+            if f[0] != it[3]: return "op %d: read back %s, last written there %s" % (i, f[0][:100], it[3][:100])
+            pos = tell     # the cursor after a read is checked against the model (correspondence); here: must not pass the end
+            if tell > size: return "op %d: cursor %d beyond size %d after read" % (i, tell, size)
+        if size != len(buf): return "op %d (%s): size()=%d, buffer must have %d bytes" % (i, op[:30], size, len(buf))
+        if tell != pos: return "op %d (%s): tell()=%d, must be %d" % (i, op[:30], tell, pos)
+    return None
+
+
 # ------------------------------------------------------------------ oracle
 def oracle(case, impl, spec):
     """None if the spec accepts the impl's observation, else a reason"""
@@ -283,6 +393,9 @@ def oracle(case, impl, spec):
     if t[0] in ("coll", "p2p", "dt"):
         if "EXC" in impl or "UNSUPPORTED" in impl: return "impl: %s" % impl[:100]
         return None if impl == spec else "every rank must hold %s, impl holds %s" % (spec[:300], impl[:300])
+    if t[0] == "pks":
+        if "EXC" in impl or "UNSUPPORTED" in impl: return "impl: %s" % impl[:100]
+        return oracle_pks(case, impl, spec)
     if t[0] == "layout":
         m = re.match(r"size=(\d+) extent=(\d+) sizeof=(\d+)", impl); s = re.match(r"wf=(\w+) entries=(\S*) comm=(\S*)", spec)
         if not m or not s: return "layout lines unparsable"
@@ -314,6 +427,7 @@ def sig_of(case):
     if t[0] == "dt": return "C07:dt:%s:%s" % (t[3], t[1])
     if t[0] == "layout": return "C07:layout:%s" % t[1]
     if t[0] == "pack": return "C07:pack"
+    if t[0] == "pks": return "C07:pack:seek"
     return "C07:?"
 
 
@@ -371,8 +485,9 @@ def run(ctx):
         groups.append((P, "mpi%d" % P, gen_coll(ctx, "mpi", P, 350 if quick else 3000)))
     seqc = [c for c in corpus if c.split()[0] in ("pack", "layout") or (c.split()[0] == "coll" and c.split()[1] == "seq")]
     groups.append((1, "seq", seqc + gen_coll(ctx, "seq", 1, 500 if quick else 5000) + gen_pack(ctx, table, 300 if quick else 3000)))
-    p2c = [c for c in corpus if c.split()[0] in ("p2p", "dt")]
-    groups.append((2, "p2p", p2c + gen_p2p(ctx, 500 if quick else 5000) + gen_dt(ctx, table, 400 if quick else 4000)))
+    p2c = [c for c in corpus if c.split()[0] in ("p2p", "dt", "pks")]
+    groups.append((2, "p2p", p2c + gen_p2p(ctx, 500 if quick else 5000) + gen_dt(ctx, table, 400 if quick else 4000)
+                   + gen_pks(ctx, table, 400 if quick else 4000)))
     ncase = nviol = ndis = 0
     kinds = {}
     samples = []
@@ -384,9 +499,11 @@ def run(ctx):
         for c, m, a in zip(cases, mo, io):
             ncase += 1
             t = c.split(); k = t[0] + ":" + (t[1] + ":" + t[2] if t[0] == "coll" else t[1] if t[0] in ("p2p",) else t[3] if t[0] == "dt" else "")
+            if t[0] == "pks":
+                k = "pks:" + ("hop" if "x" in t else "local") + (":typed-readback" if any(o.startswith("r|") for o in t) else ":bytes")
             kinds[k] = kinds.get(k, 0) + 1
             mm, _, spec = m.partition(" | ")
-            if P > 1 and t[0] in ("p2p", "dt"):
+            if P > 1 and t[0] in ("p2p", "dt", "pks"):
                 a2 = ";".join(a.split(";")[:2])      # ranks >= 2 idle
             elif t[0] == "layout":
                 a2 = a.split(";")[0]
@@ -417,7 +534,9 @@ def run(ctx):
                 "non-blocking variants, every root, lengths 0..17 incl. rank-dependent lengths and permuted displacements with gaps, sentinel-filled "
                 "receive buffers longer than needed) over 22 element types with extreme values; reductions with built-in ops and user functors "
                 "(trampoline) on values keeping results exact; the same script on Communication<No_Comm>; MPIPack scripts of static/dynamic items from raw "
-                "object bytes (buffer bytes, tell/size/eof, read-back into 0xA5-filled objects); send/recv/rrecv/isend/irecv incl. strings and packs; "
+                "object bytes (buffer bytes, tell/size/eof, read-back into 0xA5-filled objects); MPIPack seek scripts (pack at a cursor before the end: overwrite in the "
+                "middle / at 0 / up to the end / beyond the end, placeholder-count pattern, arbitrary byte positions, seek(end)/seek(0), size/tell/eof after every "
+                "op, hop to another rank with rrecv, typed read-back); send/recv/rrecv/isend/irecv incl. strings and packs; "
                 "datatype content at byte level (random sender bytes incl. padding, sentinel receiver) via send/bcast/raw MPI; layout predicate per type. "
                 "non-trivial = some non-zero payload digit; distinct = distinct case lines",
         "samples": samples[:6], "kind_distribution": kinds, "process_counts": Ps,
@@ -437,7 +556,7 @@ def replay(ctx, path):
     io = run_impl(ctx, impl, P, [case], "rimpl")
     mm, _, spec = mo[0].partition(" | ")
     a = io[0]
-    if P > 1 and case.split()[0] in ("p2p", "dt"): a = ";".join(a.split(";")[:2])
+    if P > 1 and case.split()[0] in ("p2p", "dt", "pks"): a = ";".join(a.split(";")[:2])
     print("case  :", case); print("ranks :", P); print("impl  :", a); print("model :", mm); print("spec  :", spec)
     r = oracle(case, a, spec)
     print("oracle:", r or "accepts")
